@@ -407,6 +407,7 @@ func (fr *frame) exec(ins ssa.Instruction) {
 			}
 			fr.locals[x] = a[i]
 		case strV:
+			noAtom(a, "indexing")
 			i, ok := in.concretize(idx, 0, len(a))
 			if !ok {
 				in.goPanicStr("index out of range")
@@ -500,6 +501,7 @@ func (fr *frame) exec(ins ssa.Instruction) {
 			}
 			fr.locals[x] = it
 		case strV:
+			noAtom(m, "range")
 			fr.locals[x] = &iterV{s: m}
 		default:
 			unsupported("range %T", m)
@@ -621,6 +623,7 @@ func (fr *frame) sliceOp(x *ssa.Slice) Value {
 		}
 		return sliceV{a: bb.a, off: bb.off + lo, n: hi - lo, capacity: max - lo}
 	case strV:
+		noAtom(bb, "slicing")
 		if hi < 0 {
 			hi = len(bb)
 		}
@@ -684,6 +687,7 @@ func (in *Interp) convert(v Value, from, to types.Type) Value {
 	tu := to.Underlying()
 	switch vv := v.(type) {
 	case strV:
+		noAtom(vv, "conversion")
 		if sl, ok := tu.(*types.Slice); ok {
 			if b, ok := sl.Elem().Underlying().(*types.Basic); ok && b.Kind() == types.Int32 {
 				s := mustStr(vv, "[]rune conversion")
@@ -1008,6 +1012,7 @@ func (fr *frame) builtin(name string, args []Value, c *ssa.CallCommon) Value {
 		case sliceV:
 			return bv(64, uint64(v.n))
 		case strV:
+			noAtom(v, "len")
 			return bv(64, uint64(len(v)))
 		case *mapV:
 			if v == nil {
